@@ -315,8 +315,8 @@ CHECKS = {
         "each transition compared with an offset->byte map / pending-set reference. The statement is a "
         "conformance claim over histories; closure of a bounded instance is the strongest exhaustive "
         "statement available and catches every shortcut that depends on buffer/range layout.",
-        "Bounds: receiver L=4 (quick) / 7 (thorough); sender L=3 / 4 (+L=5 with <=2 outstanding); RangeSet "
-        "universe 6 / 8. Frame contents are the true stream bytes; each frame delivered at most once; "
+        "Bounds: receiver L=5 (quick) / 8 (thorough); sender L=4 / 5 (+L=6 with <=2 outstanding); RangeSet "
+        "universe 7 / 9. Frame contents are the true stream bytes; each frame delivered at most once; "
         "get_frame not called after reset. Long random sequences on large streams are not covered.",
         "DESIGN.md §4 C10",
     ),
